@@ -59,18 +59,21 @@ W(schema, pk, n, stride, center, radius, dp) ==
 Quick ==
       { W("v", "E", 0, 3, 2, 3, 3) }
  \cup { W("v", "B", n, 4, c, 2, 2) : n \in {3, 4}, c \in {1, 3} }
- \cup { W("v", "B", 9, 4, c, 2, 3) : c \in {1, 6} }
+ \cup { W("v", "B", 9, 4, 6, 2, 3), W("v", "B", 9, 4, 1, 2, 2), W("v", "B", 9, 4, 9, 2, 2) }
  \cup { W("v", "B", 10, 4, c, 2, 2) : c \in {3, 9, 10} }
- \cup { W("v", "B", 13, 4, c, 2, 2) : c \in {9, 11} }
- \cup { W("v", "D", 12, 4, 6, 2, 2) }
+ \cup { W("v", "B", 12, 4, c, 2, 2) : c \in {1, 11} }
+ \cup { W("v", "B", 13, 4, c, 2, 2) : c \in {9, 11, 13} }
+ \cup { W("v", "D", 12, 4, c, 2, 2) : c \in {3, 6} }
  \cup { W("v", "B", 19, 5, c, 2, 2) : c \in {10, 18} }
  \cup { W("v", "B", 28, 6, c, 2, 2) : c \in {1, 27} }
- \cup { W("v", "A", 8, 4, c, 2, 3) : c \in {1, 4} }
- \cup { W("v", "A", 17, 5, c, 2, 3) : c \in {1, 9, 16} }
- \cup { W("v", "Z", 11, 4, 9, 2, 3) }
- \cup { W("v", "P", 15, 5, 7, 2, 3) }
- \cup { W("iv", "E", 0, 3, 2, 3, 2), W("iv", "B", 10, 4, 9, 2, 2), W("iv", "A", 11, 4, 2, 2, 3) }
- \cup { W("v6", "A", 13, 4, 2, 2, 3), W("v6", "B", 17, 5, 13, 2, 2) }
+ \cup { W("v", "A", 8, 4, c, 2, 2) : c \in {1, 4, 8} }
+ \cup { W("v", "A", 17, 5, 9, 2, 3) }
+ \cup { W("v", "A", 17, 5, c, 2, 2) : c \in {1, 5, 13, 17} }
+ \cup { W("v", "Z", 11, 4, c, 2, 2) : c \in {2, 9} }
+ \cup { W("v", "P", 15, 5, c, 2, 2) : c \in {3, 7, 12} }
+ \cup { W("iv", "E", 0, 3, 2, 3, 2), W("iv", "B", 10, 4, 9, 2, 2), W("iv", "A", 11, 4, 2, 2, 2), W("iv", "A", 11, 4, 8, 2, 2) }
+ \cup { W("v6", "A", 13, 4, c, 2, 2) : c \in {2, 7, 12} }
+ \cup { W("v6", "B", 17, 5, 13, 2, 2) }
  \cup { W("i", "B", 12, 4, 6, 2, 2) }
 Thorough ==
       { W("v", "E", 0, 3, 3, 4, 4) }
@@ -185,7 +188,7 @@ ASSUME Mode # "probes" => \A c \in Combos : /\ (c.pk \in {"B", "D"} => SortedEnt
                                              /\ Size(Run(<<>>, Prefix(c))) = c.pn
 
 Full == Rg(0, 0, TRUE, TRUE)
-TotalRids(s) == Len(Flat(RangeGroups(s, Full)))
+TotalRids(s) == Len(FlatTo(s, Len(s)))
 \* a canonical two-level tree of the multimap: leaves of three entries, one root with the first key of every
 \* later leaf as separator (a single leaf when three entries suffice)
 CanonDump(s) ==
@@ -206,14 +209,21 @@ DropEntry(dd) == LET i == IF Len(dd.nodes) = 1 THEN 1 ELSE 2 IN [dd EXCEPT !.nod
 WrongDepth(dd) == [dd EXCEPT !.h = @ + 1]
 WfSelfCheck ==
    Mode = "exh" =>
-     LET dd == CanonDump(m) IN
+     \E dd \in { CanonDump(m) } :          \* (bound once: operator arguments are re-evaluated at every use)
      /\ WellFormed(dd, m, cmb.nu)
-     /\ WfFails(WrongDepth(dd), m, cmb.nu) = <<"depth">>
-     /\ (Size(m) >= 1 => "content" \in Range(WfFails(DropEntry(dd), m, cmb.nu)))
-     /\ (Size(m) >= 5 => /\ WfFails(ShiftSep(dd), m, cmb.nu) = <<"sep">>
-                         /\ WfFails(BreakChain(dd), m, cmb.nu) = <<"chain">>)
+     /\ \E x \in { WrongDepth(dd) } : WfFails(x, m, cmb.nu) = <<"depth">>
+     /\ (Size(m) >= 1 => \E x \in { DropEntry(dd) } : "content" \in Range(WfFails(x, m, cmb.nu)))
+     /\ (Size(m) >= 5 => /\ \E x \in { ShiftSep(dd) } : WfFails(x, m, cmb.nu) = <<"sep">>
+                         /\ \E x \in { BreakChain(dd) } : WfFails(x, m, cmb.nu) = <<"chain">>)
+\* the validator's shortcuts equal the definitions on the whole probe battery
+ShortcutsOK ==
+   Mode = "exh" =>
+     \E fa \in { FlatTo(m, cmb.nu) } : \E cu \in { CumTo(m, cmb.nu) } : \E R \in { Ranges(cmb.nu, cmb.stride) } :
+        /\ fa = Flat(RangeGroups(m, Full))
+        /\ \A i \in { j \in 1..Len(R) : j % 13 = TotalRids(m) % 13 } : Seg(fa, cu, R[i]) = Flat(RangeGroups(m, R[i]))
 Inv == /\ Mode # "probes" => (DOMAIN m = 1..cmb.nu /\ Present(m) \subseteq Storable(cmb.schema, cmb.nu))
        /\ WfSelfCheck
+       /\ ShortcutsOK
 
 \* multimap laws, step by step
 Last == hist'[Len(hist')]
@@ -230,14 +240,11 @@ StepLaws == [][ (Mode \in {"exh", "sim"} /\ hist' # hist /\ ~(Mode = "sim" /\ d 
                       /\ IF Has(m[a.k], a.r) THEN BagEq(Append(m'[a.k], a.r), m[a.k]) ELSE m' = m
    /\ a.a = "reload" => m' = m
    \* every scan is the matching segment of the full scan; a split point partitions the full scan
-   /\ \A b \in { x \in 1..cmb.nu : x % 8 = 1 } :
+   /\ \A b \in { 1 + ((Len(hist') * 7 + TotalRids(m')) % cmb.nu) } :
         /\ Flat(RangeGroups(m', Rg(0, b, TRUE, FALSE))) \o Flat(RangeGroups(m', Rg(b, 0, TRUE, TRUE))) = Flat(RangeGroups(m', Full))
         /\ Flat(RangeGroups(m', Rg(b, b, TRUE, TRUE))) = Lookup(m', b)
         /\ RangeGroups(m', Rg(b, b, TRUE, FALSE)) = <<>>
    /\ AcceptRange(m', Full, Flat(RangeGroups(m', Full)))
-   \* the validator's shortcuts equal the definitions on the whole probe battery
-   /\ FlatTo(m', cmb.nu) = Flat(RangeGroups(m', Full))
-   /\ LET R == Ranges(cmb.nu, cmb.stride) IN
-      \A i \in 1..Len(R) : Seg(FlatTo(m', cmb.nu), CumTo(m', cmb.nu), R[i]) = Flat(RangeGroups(m', R[i]))
+
    ]_vars
 =============================================================================
